@@ -1223,6 +1223,12 @@ class DefaultControllerPlugin(ControllerPluginBase):
         def log(name, message):
             self.ctl.output("%s: %s" % (name, message))
 
+        def stop_failures(results):
+            # a process that was not running counts as stopped
+            return [res for res in results
+                    if res['status'] not in (xmlrpc.Faults.SUCCESS,
+                                             xmlrpc.Faults.NOT_RUNNING)]
+
         supervisor = self.ctl.get_supervisor()
         try:
             result = supervisor.reloadConfig()
@@ -1262,9 +1268,7 @@ class DefaultControllerPlugin(ControllerPluginBase):
             results = supervisor.stopProcessGroup(gname)
             log(gname, "stopped")
 
-            fails = [res for res in results
-                     if res['status'] == xmlrpc.Faults.FAILED]
-            if fails:
+            if stop_failures(results):
                 self.ctl.output("%s: %s" % (gname, "has problems; not removing"))
                 self.ctl.exitstatus = LSBInitExitStatuses.GENERIC
                 continue
@@ -1274,8 +1278,13 @@ class DefaultControllerPlugin(ControllerPluginBase):
         for gname in changed:
             if valid_gnames and gname not in valid_gnames:
                 continue
-            supervisor.stopProcessGroup(gname)
+            results = supervisor.stopProcessGroup(gname)
             log(gname, "stopped")
+
+            if stop_failures(results):
+                self.ctl.output("%s: %s" % (gname, "has problems; not updating"))
+                self.ctl.exitstatus = LSBInitExitStatuses.GENERIC
+                continue
 
             supervisor.removeProcessGroup(gname)
             supervisor.addProcessGroup(gname)
